@@ -272,7 +272,7 @@ def run(tier):
     # a call that has not returned after five seconds is reported (an error message built with a backtracking pattern doubles its time with every digit)
     import signal
 
-    class _Slow(Exception):
+    class _Slow(BaseException):
         pass
 
     def _alarm(sig, frm):
